@@ -139,7 +139,7 @@ func (g *c16Gen) cmd(c *Cmd, depth int) {
 	if depth < 2 && rapid.IntRange(0, 9).Draw(t, "hasCmds") < 7 {
 		for i := rapid.IntRange(1, 3).Draw(t, "ncmds"); i > 0; i-- {
 			g.n++
-			sc := Cmd{ID: fmt.Sprintf("c%d", g.n), Field: fmt.Sprintf("C%d", g.n), Name: "cmd" + g.mk(), ByTag: c.ByTag || rapid.Bool().Draw(t, "byTag")}
+			sc := Cmd{ID: fmt.Sprintf("c%d", g.n), Field: fmt.Sprintf("C%d", g.n), Name: "cmd" + g.mk() + rapid.SampledFrom([]string{"", "", "é", "éß", "größe", "日本"}).Draw(t, "cmdSuffix"), ByTag: c.ByTag || rapid.Bool().Draw(t, "byTag")}
 			if rapid.IntRange(0, 9).Draw(t, "cmdDesc") < 7 {
 				sc.Desc = "cdesc" + g.mk()
 			}
@@ -305,8 +305,8 @@ func c16Oracle(c *C16Case) string {
 	}
 	var err error
 	if pm := Safely(func() { _, err = b.P.ParseArgs(append(append([]string{}, words...), "--help")) }); pm != "" {
-		st.Label("skip: panic (C17/C04)")
-		return ""
+		// no help at all: nothing of the visible interface is shown
+		return fmt.Sprintf("help for chain %q could not be generated (panic), the visible interface is not shown: %s", words, pm)
 	}
 	fe := FlagsErr(err)
 	if fe == nil || fe.Type != flags.ErrHelp {
